@@ -138,10 +138,16 @@ Next == \/ \E c \in Ctx : Start(c)
 
 Causal == ok
 
+(* what the repaired runtime guarantees for the clock of a variable: no step makes it smaller -- in       *)
+(* particular an aborted attempt leaves it at least at the clock logged for the last commit that touched  *)
+(* the variable. Holds for Fix = "none" and "vars"; the seeded variant "vars-rollback" breaks it.         *)
+VarClocksMonotone == [][\A zc \in DOMAIN S.vclk : zc \in DOMAIN S'.vclk /\ Dominates(S'.vclk[zc], S.vclk[zc])]_vars
+
 (* channel topologies for the configuration files (a cfg cannot contain tuples) *)
 P0 == {}
 P12 == {<<1, 2>>}
 P12_23 == {<<1, 2>>, <<2, 3>>}
 P12_21 == {<<1, 2>>, <<2, 1>>}
+P31 == {<<3, 1>>}
 PAll == {<<1, 2>>, <<2, 1>>, <<1, 3>>, <<3, 1>>, <<2, 3>>, <<3, 2>>}
 =============================================================================
